@@ -1157,6 +1157,34 @@ func (g *gen) txModify(pm *Model, batchOpen []*MAuction) *Tx {
 	}
 	m.Price = decString(np)
 	m.Coin = &Coin{b.Denom, na.String()}
+	// a stranger who is not on this auction's allow-list but holds the bid with the same number in another
+	// auction (bid numbers are per auction): tried whenever such an account exists
+	twin := -1
+	for cand := range pm.Actors {
+		addr := pm.actor(cand)
+		if cand == who {
+			continue
+		}
+		if _, listed := a.Allowed[addr]; listed {
+			continue
+		}
+		for _, oa := range pm.Auctions {
+			if oa.ID == a.ID {
+				continue
+			}
+			for _, ob := range oa.Bids {
+				if ob.ID == b.ID && ob.Bidder == addr {
+					twin = cand
+				}
+			}
+		}
+	}
+	if twin >= 0 && g.chance(0.35) {
+		m.Who = twin
+		g.intents["modify_by_unlisted_twin"]++
+		g.intents["modify:notowner"]++
+		return &Tx{Actor: m.Who, Msg: m, Note: "notowner"}
+	}
 	if g.chance(g.p.WInvalid * 0.6) {
 		switch g.r.Intn(5) {
 		case 0:
